@@ -215,7 +215,7 @@ pub fn run(ctx: &mut Ctx) {
         "async receive windows are single-shot: a rejected frame replaces the time-out of that window; in nb windows and Class C gaps frames are additional".into(),
         "for a transaction in which an oversize frame ended the receive procedure, only the uplink, the response, the following transactions and the states are compared".into(),
     ];
-    let cases = ctx.tier.pick(4_000u32, 300_000);
+    let cases = ctx.tier.pick(40_000u32, 1_000_000);
     let seed = ctx.seed;
     let nthreads = ctx.threads as u32;
     ctx.parallel(|ti, _n, st| {
